@@ -208,6 +208,8 @@ pub enum K {
     Spawn { t: usize },
     Join { t: usize },
     Yield,
+    /// no loom operation: the harness notes how many decisions were taken so far (note 40)
+    Mark,
     // ---- control
     StopExploring,
     Explore,
@@ -481,6 +483,7 @@ pub fn op_text(op: &Op) -> String {
         K::Spawn { t } => write!(s, "spawn T{}", t),
         K::Join { t } => write!(s, "join T{}", t),
         K::Yield => write!(s, "yield"),
+        K::Mark => write!(s, "mark"),
         K::StopExploring => write!(s, "stop_exploring"),
         K::Explore => write!(s, "explore"),
         K::SkipBranch => write!(s, "skip_branch"),
@@ -684,6 +687,7 @@ fn rust_op(t: usize, k: &K) -> String {
         K::Spawn { t: tt } => format!("h{0} = Some(loom::thread::spawn(body{0}.take().unwrap())); {1}", tt, u),
         K::Join { t: tt } => format!("h{}.take().unwrap().join().unwrap(); {}", tt, u),
         K::Yield => format!("loom::thread::yield_now(); {}", u),
+        K::Mark => u.to_string(),
         K::StopExploring => format!("loom::stop_exploring(); {}", u),
         K::Explore => format!("loom::explore(); {}", u),
         K::SkipBranch => format!("loom::skip_branch(); {}", u),
